@@ -39,6 +39,7 @@ THelper == Consume("helper") /\ HelperExplained /\ Help(Ev.fn, Ev.c, Ev.out)
 TDrift == /\ Collect /\ l <= Len(TraceLog)
           /\ \/ Ev.ev = "rpc" /\ ~RpcExplained /\ Set(Adopt)
              \/ Ev.ev = "helper" /\ ~HelperExplained /\ UNCHANGED state
+             \/ Ev.ev = "crash" /\ UNCHANGED state      \* a process death is never a behaviour of the model
           /\ PrintT(<<"DRIFT", ToJson([at |-> l, line |-> Ev])>>)
           /\ l' = l + 1 /\ res' = Ev.out
 
